@@ -258,6 +258,7 @@ pub fn suite_corrupt(dir: &str, seed: u64, thorough: bool, st: &mut Stats) {
 pub fn suite_hostile(dir: &str, seed: u64, thorough: bool, st: &mut Stats) {
     let mut rng = Rng::new(seed ^ 0xa3);
     let out = SuiteOut::new(dir, "hostile");
+    bomb_case(st);
     let n = if thorough { 4000 } else { 500 };
     for i in 0..n {
         let mut d = gen_dict(&mut rng);
@@ -284,9 +285,63 @@ pub fn suite_hostile(dir: &str, seed: u64, thorough: bool, st: &mut Stats) {
     out.finish();
 }
 
+fn vm_hwm_kib() -> u64 {
+    std::fs::read_to_string("/proc/self/status").ok().and_then(|s| {
+        s.lines().find(|l| l.starts_with("VmHWM:")).and_then(|l| l.split_whitespace().nth(1).and_then(|x| x.parse().ok()))
+    }).unwrap_or(0)
+}
+
+/// C15: a tiny payload that decompresses to far more than the declared chunk size must be rejected without
+/// buffering the expansion (peak memory of this process is the observable)
+pub fn bomb_case(st: &mut Stats) {
+    let big = vec![0u8; 192 << 20];
+    let payload = brotli(1, &big);
+    drop(big);
+    let fake_src = vec![7u8; 100];
+    let d = Dict {
+        version: b"x".to_vec(), checksum: b2(&fake_src), total: 100,
+        params: Some([0, 0, 100, 0, 64, 2]), comp: Some([3, 1]), order: vec![0],
+        descs: vec![Desc { checksum: b2(&fake_src), archive_size: payload.len() as u32, archive_offset: 0, source_size: 100 }],
+        meta: Default::default(),
+    };
+    let mut rng = Rng::new(1);
+    let mut bytes = make_header(&d.encode_free(&mut rng, false), false, None);
+    bytes.extend_from_slice(&payload);
+    // run in a child process so that the peak memory is that of the clone alone
+    let dir = std::env::var("VERIF_SCRATCH").unwrap_or_else(|_| "/verif/build/scratch".to_string());
+    let _ = std::fs::create_dir_all(&dir);
+    let path = format!("{}/bomb-{}.cba", dir, std::process::id());
+    std::fs::write(&path, &bytes).unwrap();
+    drop(bytes);
+    let out = std::process::Command::new(std::env::current_exe().unwrap()).args(["bombchild", &path]).output();
+    let _ = std::fs::remove_file(&path);
+    st.evaluations += 1;
+    st.oracle_checks += 1;
+    st.count("hostile/decompression-bomb");
+    let text = out.map(|o| String::from_utf8_lossy(&o.stdout).to_string()).unwrap_or_default();
+    let mut ok = false;
+    let mut hwm = 0u64;
+    for l in text.lines() {
+        if let Some(v) = l.strip_prefix("BOMB-RESULT ") { ok = v.starts_with("ok"); }
+        if let Some(v) = l.strip_prefix("BOMB-HWM-KIB ") { hwm = v.trim().parse().unwrap_or(0); }
+    }
+    if ok { st.violation("C04", "a decompression bomb was cloned successfully", "bomb"); }
+    if hwm == 0 || hwm > 96 * 1024 {
+        st.violation("C15", &format!("a {} byte payload declared as a 100 byte chunk made the process use {} MiB (child output: {:?})", payload.len(), hwm / 1024, text.lines().last()), "bomb");
+    }
+}
+
+pub fn bomb_child(path: &str) {
+    let bytes = std::fs::read(path).unwrap();
+    let r = lib_clone(&bytes, &[]);
+    println!("BOMB-RESULT {}", if r.is_ok() { "ok".to_string() } else { format!("err {}", r.unwrap_err()) });
+    println!("BOMB-HWM-KIB {}", vm_hwm_kib());
+}
+
 pub fn replay(line: &str) -> Result<(), String> {
     let t: Vec<&str> = line.split(' ').collect();
     match t[0] {
+        "bomb" => { let mut st = Stats::default(); bomb_case(&mut st); match st.violations.first() { Some(v) => Err(v.1.clone()), None => Ok(()) } }
         "corrupt" => {
             let src = unhex(t[2]);
             match lib_clone(&unhex(t[3]), &[]) {
